@@ -25,6 +25,7 @@ NEXT Next
 INVARIANT BuildShadowsAll
 INVARIANT RuleOverFileLazy
 INVARIANT FileFallback
+INVARIANT EmptyShadows
 INVARIANT InOut
 INVARIANT BuildValuesInFileScope
 INVARIANT PathsSeeBuildBindings
